@@ -50,6 +50,9 @@ SOURCES = {
     'mat': (None, ['mass-atomrho', 'mass-massrho', 'atom-atomrho',
                    'keywords', 'repeated-nuclide', 'same-value-spellings',
                    'two-densities']),
+    # LIKE n BUT cards (their RHO= / MAT= overrides name compositions by
+    # another path than ordinary cell cards)
+    'like': (None, ['mat-rho', 'rho-only', 'chain', 'everything']),
 }
 
 
@@ -62,9 +65,10 @@ class _Sub:
         self.seed = case.seed
 
 _PER = {'quick': {'c01': 3, 'c05': 4, 'c06': 3, 'c07': 2, 'hostile': 12,
-                  'c04': 4, 'mat': 6, 'mix': 2},
+                  'c04': 4, 'mat': 6, 'mix': 2, 'like': 6},
         'thorough': {'c01': 450, 'c05': 600, 'c06': 360, 'c07': 300,
-                     'hostile': 1500, 'c04': 450, 'mat': 450, 'mix': 100}}
+                     'hostile': 1500, 'c04': 450, 'mat': 450, 'mix': 100,
+                     'like': 300}}
 FLAGS = ['--skip-deduplication', '--skip-compositions', '--skip-geomcomp',
          '--skip-boundary-conditions', '--always-inline-filling',
          '--always-inline-filled']
@@ -92,6 +96,9 @@ def build(case):
         deck = c04.build(_Sub(case, fam))
     elif src == 'mat':
         deck = c10.build(_Sub(case, fam))
+    elif src == 'like':
+        from . import c15
+        deck = c15.build(_Sub(case, fam))
     else:
         deck = SOURCES[src][0](case.rng, fam)
     if case.rng.random() < 0.4:
